@@ -1624,6 +1624,7 @@ METHOD_EXPRS = [
     "self.attr", "type(self).attr", "__class__.attr", "self.meth(*aa, **bb)", "(yield aa)", "(yield)", "(yield from aa)", "(await aa)", "(await aa).attr",
     "{vv for vv in aa}", "{vv: 1 for vv in aa}", "(vv for vv in aa)", "[vv for vv in aa if vv for ww in vv]", "[vv async for vv in aa]",
     "cast(int, aa)", "cast('list[int]', aa)", "list[int]", "list[int]()", "dict[str, int]()", "f'{aa=}'", "f'{aa = !r:>4}'", "aa[bb:cc:dd]", "aa[::-1]", "...",
+    "f'{aa:>8}{bb}'", "f'{aa:x}{bb}{cc:>4}{dd}'", "f'{aa}{bb:x}{cc}'", "f'x{aa:.2f}y{bb}z'", "f'{aa:>8}' f'{bb}'",
     "print(*aa, sep='')", "aa(*bb)(**cc)", "not aa is bb", "aa is not bb", "aa not in bb", "(aa, bb) == (cc,)", "[aa, *bb, cc]", "{aa, *bb}", "{'k': aa, **bb, 1: 2}",
     "b'x' b'y'", "'x' 'y'", "1_0.0_1", "0o17", "0b11", "1.", ".5", "5j.imag", "aa.real.imag", "(aa)(bb)", "aa()()", "aa[bb][cc]", "lambda: (yield)",
 ]
